@@ -137,3 +137,38 @@ func VH_C15_bigslice() {
 	vLog("n", n)
 	vCover("big-slice")
 }
+
+// ---- C10: a long-lived nested arrangement: the same outer flow (with an embedded flow that is
+// entered once per outer pass, through a loop in the parent) keeps behaving like the flattened
+// machine after many thousands of node executions (lifetime counters, caches, step limits)
+type c10CountNode struct {
+	visits int
+	until  int
+	more   Action
+}
+
+func (n *c10CountNode) Prep(ctx context.Context, s *SharedStore) (any, error) { n.visits++; return nil, nil }
+func (n *c10CountNode) Exec(ctx context.Context, p any) (any, error)          { return nil, nil }
+func (n *c10CountNode) Post(ctx context.Context, s *SharedStore, p, e any) (Action, error) {
+	if n.visits < n.until {
+		return n.more, nil
+	}
+	return "done", nil
+}
+
+func VH_C10_manyVisits() {
+	passes := vParam("passes", 5200)
+	// outer: S -again-> IN -default-> S ... until S has been visited `passes` times, then S -done-> T
+	// IN (inner): A -default-> B (unconnected afterwards: ends, reports B's action "default")
+	s := &c10CountNode{until: passes, more: "again"}
+	a, b := &vSimpleNode{act: DefaultAction}, &vSimpleNode{act: DefaultAction}
+	t := &vSimpleNode{act: "end"}
+	inner := NewFlow(a)
+	inner.Connect(a, DefaultAction, b)
+	outer := NewFlow(s)
+	outer.Connect(s, "again", inner).Connect(inner, DefaultAction, s).Connect(s, "done", t)
+	err := outer.Run(vNewCtx(), NewSharedStore())
+	vAssert(err == nil, "long-lived-nested-flow-runs-to-its-end")
+	vAssert(s.visits == passes && a.visits == passes-1 && b.visits == passes-1 && t.visits == 1, "visit-order-equals-flattened-machine")
+	vCover("many-visits")
+}
